@@ -46,6 +46,8 @@ type Violation struct {
 	Where     string            `json:"where"`
 	Harness   string            `json:"harness"`
 	Notes     []string          `json:"notes,omitempty"`
+	ReplayHarness string           `json:"replay_harness,omitempty"`
+	ReplayParams  map[string]int64 `json:"replay_params,omitempty"`
 }
 
 type abortPath struct {
@@ -79,6 +81,8 @@ type pathState struct {
 	harness string
 	unsatCore bool
 	ghostSample map[string]string
+	replayHarness string
+	replayParams  map[string]int64
 }
 
 func (ps *pathState) assertTerm(t *Term) {
@@ -203,7 +207,7 @@ func (ps *pathState) concretize(t *Term, what string) uint64 {
 		excl = d.Excl
 	}
 	if len(excl) >= ps.ex.cfg.MaxEnum {
-		panic(abortPath{"budget", fmt.Sprintf("more than %d values while concretising %s", ps.ex.cfg.MaxEnum, what)})
+		panic(abortPath{"budget", fmt.Sprintf("more than %d values while concretising %s (term %s; values %v)", ps.ex.cfg.MaxEnum, what, t.String(), excl[:8])})
 	}
 	var extra []*Term
 	for _, e := range excl {
@@ -306,7 +310,7 @@ func (ps *pathState) check(cond *Term, kind, msg, where string) {
 	ps.violations = append(ps.violations, Violation{
 		Kind: kind, Msg: msg, Tag: ps.tag, Inputs: m, Values: seq, InputSeq: names,
 		Decisions: append([]Decision{}, ps.trace...), Where: where, Harness: ps.harness,
-		Notes: append([]string{}, ps.notes...),
+		Notes: append([]string{}, ps.notes...), ReplayHarness: ps.replayHarness, ReplayParams: ps.replayParams,
 	})
 	// continue on the side where the assertion holds, if any
 	if ps.solver.CheckWith(cond) == resUnsat {
@@ -328,7 +332,7 @@ func (ps *pathState) event(kind, msg, where string) {
 	ps.violations = append(ps.violations, Violation{
 		Kind: kind, Msg: msg, Tag: ps.tag, Inputs: m, Values: seq, InputSeq: names,
 		Decisions: append([]Decision{}, ps.trace...), Where: where, Harness: ps.harness,
-		Notes: append([]string{}, ps.notes...),
+		Notes: append([]string{}, ps.notes...), ReplayHarness: ps.replayHarness, ReplayParams: ps.replayParams,
 	})
 }
 
@@ -381,6 +385,7 @@ type Result struct {
 	Wall         time.Duration
 	MaxTrace     int
 	Steps        int64
+	chains       map[string]string
 }
 
 type Explorer struct {
@@ -549,9 +554,9 @@ func (ex *Explorer) merge(pr *pathResult) {
 	case "assumed":
 		r.Assumed++
 	case "unsupported":
-		r.Unsupported[pr.reason]++
+		r.Unsupported[r.dedupe(pr.reason)]++
 	case "budget":
-		r.Budget[pr.reason]++
+		r.Budget[r.dedupe(pr.reason)]++
 	default:
 		r.Unsupported["unknown path status "+pr.status+": "+pr.reason]++
 	}
@@ -565,6 +570,22 @@ func (ps *pathState) modelNoSolver() (bool, map[string]string, []int64, []string
 		return false, nil, nil, nil
 	}
 	return true, ps.ghostSample, nil, nil
+}
+
+// dedupe keeps one call chain per distinct reason.
+func (r *Result) dedupe(reason string) string {
+	head := reason
+	if k := strings.Index(reason, " [in "); k >= 0 {
+		head = reason[:k]
+	}
+	if r.chains == nil {
+		r.chains = map[string]string{}
+	}
+	if full, ok := r.chains[head]; ok {
+		return full
+	}
+	r.chains[head] = reason
+	return reason
 }
 
 func sortedKeys[V any](m map[string]V) []string {
